@@ -43,10 +43,10 @@ KINDS = {
     "C09": {"id-mismatch", "id-out-of-bounds", "duplicate-id", "over-capacity", "accepted-after-close", "header-not-reset", "refused-with-request",
             "refused-but-registered", "conservation", "managed-flag", "panic", "recycling", "harness", "explicit-id-race", "send-blocked", "stalled"},
     "C10": {"misrouted", "unknown-id-result", "delivery-count", "last-not-complete", "early-complete", "delivery-failed", "event-to-request",
-            "wrong-pages", "panic", "harness", "receiver-blocked", "timeout-early", "stalled"},
+            "wrong-pages", "panic", "harness", "receiver-blocked", "timeout-early", "stalled", "event-lost"},
     "C16": {"not-done-after-close", "no-error-after-close", "registered-after-close", "done-vs-closed", "err-without-done", "accepted-after-close",
             "panic", "goroutine-leak", "close-hangs", "receiver-blocked", "send-blocked", "worker-crash", "timeout-missing", "timeout-early", "harness",
-            "stalled"},
+            "stalled", "accept-blocked"},
 }
 
 
@@ -311,8 +311,11 @@ def verdict(run, prop, broken, findings):
             nviol += 1
             if nviol <= 3:
                 rep = {"property": prop, "failing_input": f, "broken": broken}
-                if f.get("case"):
+                if f.get("case") and f["case"].get("ops"):
                     rep["how_to_replay"] = "cd /verif && " + replay_cmd(f["case"])
+                elif str(f.get("source", "")).startswith("harness "):
+                    # a scripted session (socket level): the sub-command runs all of them, the failing one is in failing_input.case
+                    rep["how_to_replay"] = "cd /verif && build/harness-inflight %s %s" % (f["source"].split()[1], run.tier)
                 run.violation(rep)
     if broken and not run.violations:
         run.violation({"property": prop, "broken": broken,
